@@ -342,6 +342,157 @@ theorem code_lockstep (limit : Nat) : ∀ (items : List (Nat × Item)) (cur : Na
         simp only at h1
         exact ih _ _ _ _ _ _ _ _ _ (by simpa [noCustom] using hnc) hdev h1 h2
 
+/-- C02, one EEPROM segment: whatever pass 1 booked (end offset `e` for the items from byte address
+    `cur`) is what pass 2 emits — `e = cur + emitted` in BYTES: `.db` lines are not padded here,
+    `.dw/.dd/.dq` take their width, `.byte n` reserves n zero bytes; instructions are refused. -/
+theorem eeprom_lockstep (limit : Nat) : ∀ (items : List (Nat × Item)) (cur : Nat) (ctx1 : Ctx) (e : Nat)
+    (its : List (Nat × Item)) (ctx1' : Ctx) (acc : List Nat) (ctx2 : Ctx) (bytes : List Nat) (ctx2' : Ctx),
+    pass1Items .eeprom limit items cur ctx1 = .ok (e, its, ctx1') →
+    pass2Items .eeprom its cur acc ctx2 = .ok (bytes, ctx2') →
+    ∃ emitted, bytes = acc ++ emitted ∧ e = cur + emitted.length := by
+  intro items
+  induction items with
+  | nil =>
+    intro cur ctx1 e its ctx1' acc ctx2 bytes ctx2' h1 h2
+    unfold pass1Items at h1
+    split at h1
+    · simp [noLineErr] at h1
+    · simp only [Out.ok.injEq, Prod.mk.injEq] at h1
+      obtain ⟨rfl, rfl, _⟩ := h1
+      simp only [pass2Items, Out.ok.injEq, Prod.mk.injEq] at h2
+      exact ⟨[], by simp [h2.1], by simp⟩
+  | cons x rest ih =>
+    intro cur ctx1 e its ctx1' acc ctx2 bytes ctx2' h1 h2
+    obtain ⟨ln, it⟩ := x
+    unfold pass1Items at h1
+    split at h1
+    · simp [lineErr] at h1
+    · cases it with
+      | label name =>
+        simp only at h1
+        split at h1
+        · simp [lineErr] at h1
+        · exact ih _ _ _ _ _ _ _ _ _ h1 h2
+      | instruction op args => simp [lineErr] at h1
+      | set name ex =>
+        simp only at h1
+        obtain ⟨its', rfl, h1'⟩ := consItem_ok' _ _ _ _ _ h1
+        simp only [pass2Items] at h2
+        split at h2
+        · simp [lineErr] at h2
+        · cases h2
+        · split at h2
+          · split at h2
+            · exact ih _ _ _ _ _ _ _ _ _ h1' h2
+            · simp [lineErr] at h2
+          · exact ih _ _ _ _ _ _ _ _ _ h1' h2
+      | «def» name ex =>
+        simp only at h1
+        obtain ⟨its', rfl, h1'⟩ := consItem_ok' _ _ _ _ _ h1
+        cases ex with
+        | ident reg =>
+          simp only [pass2Items] at h2
+          split at h2
+          · simp [lineErr] at h2
+          · split at h2
+            · simp [lineErr] at h2
+            · split at h2
+              · exact ih _ _ _ _ _ _ _ _ _ h1' h2
+              · exact ih _ _ _ _ _ _ _ _ _ h1' h2
+        | const v => simp [pass2Items, lineErr] at h2
+        | func a b => simp [pass2Items, lineErr] at h2
+        | bin o a b => simp [pass2Items, lineErr] at h2
+        | un o a => simp [pass2Items, lineErr] at h2
+      | undef name =>
+        simp only at h1
+        obtain ⟨its', rfl, h1'⟩ := consItem_ok' _ _ _ _ _ h1
+        simp only [pass2Items] at h2
+        split at h2
+        · exact ih _ _ _ _ _ _ _ _ _ h1' h2
+        · simp [lineErr] at h2
+      | data dt ops =>
+        cases dt with
+        | db =>
+          simp only at h1
+          obtain ⟨its', rfl, h1'⟩ := consItem_ok' _ _ _ _ _ h1
+          simp only [pass2Items] at h2
+          generalize hc2 : ({ ctx2 with special := ainsert "pc".toList (Expr.const (cur : Int)) ctx2.special } : Ctx) = c2 at h2
+          cases hd : dataBytes c2 .db ops with
+          | ok bs0 =>
+            rw [hd] at h2; simp only [reduceCtorEq, if_false] at h2
+            have hl := db_length c2 ops bs0 hd
+            obtain ⟨em, hb, he⟩ := ih _ _ _ _ _ _ _ _ _ h1' (by rw [hl] at h2; exact h2)
+            refine ⟨bs0 ++ em, by rw [hb]; simp, ?_⟩
+            rw [List.length_append, hl, he]; omega
+          | err => rw [hd] at h2; simp [lineErr] at h2
+          | oof => rw [hd] at h2; cases h2
+        | dw =>
+          simp only at h1
+          obtain ⟨its', rfl, h1'⟩ := consItem_ok' _ _ _ _ _ h1
+          simp only [pass2Items] at h2
+          generalize hc2 : ({ ctx2 with special := ainsert "pc".toList (Expr.const (cur : Int)) ctx2.special } : Ctx) = c2 at h2
+          cases hd : dataBytes c2 .dw ops with
+          | ok bs0 =>
+            rw [hd] at h2; simp only [reduceCtorEq, if_false] at h2
+            have hl := word_length c2 .dw (by decide) ops bs0 hd
+            simp only [widthOf] at hl
+            obtain ⟨em, hb, he⟩ := ih _ _ _ _ _ _ _ _ _ h1' (by rw [hl] at h2; exact h2)
+            refine ⟨bs0 ++ em, by rw [hb]; simp, ?_⟩
+            rw [List.length_append, hl, he]; omega
+          | err => rw [hd] at h2; simp [lineErr] at h2
+          | oof => rw [hd] at h2; cases h2
+        | dd =>
+          simp only at h1
+          obtain ⟨its', rfl, h1'⟩ := consItem_ok' _ _ _ _ _ h1
+          simp only [pass2Items] at h2
+          generalize hc2 : ({ ctx2 with special := ainsert "pc".toList (Expr.const (cur : Int)) ctx2.special } : Ctx) = c2 at h2
+          cases hd : dataBytes c2 .dd ops with
+          | ok bs0 =>
+            rw [hd] at h2; simp only [reduceCtorEq, if_false] at h2
+            have hl := word_length c2 .dd (by decide) ops bs0 hd
+            simp only [widthOf] at hl
+            obtain ⟨em, hb, he⟩ := ih _ _ _ _ _ _ _ _ _ h1' (by rw [hl] at h2; exact h2)
+            refine ⟨bs0 ++ em, by rw [hb]; simp, ?_⟩
+            rw [List.length_append, hl, he]; omega
+          | err => rw [hd] at h2; simp [lineErr] at h2
+          | oof => rw [hd] at h2; cases h2
+        | dq =>
+          simp only at h1
+          obtain ⟨its', rfl, h1'⟩ := consItem_ok' _ _ _ _ _ h1
+          simp only [pass2Items] at h2
+          generalize hc2 : ({ ctx2 with special := ainsert "pc".toList (Expr.const (cur : Int)) ctx2.special } : Ctx) = c2 at h2
+          cases hd : dataBytes c2 .dq ops with
+          | ok bs0 =>
+            rw [hd] at h2; simp only [reduceCtorEq, if_false] at h2
+            have hl := word_length c2 .dq (by decide) ops bs0 hd
+            simp only [widthOf] at hl
+            obtain ⟨em, hb, he⟩ := ih _ _ _ _ _ _ _ _ _ h1' (by rw [hl] at h2; exact h2)
+            refine ⟨bs0 ++ em, by rw [hb]; simp, ?_⟩
+            rw [List.length_append, hl, he]; omega
+          | err => rw [hd] at h2; simp [lineErr] at h2
+          | oof => rw [hd] at h2; cases h2
+      | reserveData n =>
+        simp only at h1
+        split at h1
+        · simp [lineErr] at h1
+        · simp only [if_true] at h1
+          obtain ⟨its', rfl, h1'⟩ := consItem_ok' _ _ _ _ _ h1
+          simp only [pass2Items] at h2
+          obtain ⟨em, hb, he⟩ := ih _ _ _ _ _ _ _ _ _ h1' h2
+          refine ⟨List.replicate n.toNat 0 ++ em, by rw [hb]; simp, ?_⟩
+          rw [List.length_append, List.length_replicate, he]; omega
+      | pragma ops =>
+        simp only at h1
+        exact ih _ _ _ _ _ _ _ _ _ h1 h2
+
+/-- a data segment reserves and emits nothing: its end offset is its start plus the sizes of its
+    `.byte` directives, and each label gets the offset reached before it (`label_is_next_position`) -/
+theorem dseg_reserve (limit : Nat) (ln : Nat) (n : Int) (rest : List (Nat × Item)) (cur : Nat) (ctx : Ctx)
+    (hlim : ¬ cur > limit) (hn : ¬ (n < 0 ∨ n > 4294967295)) :
+    pass1Items .data limit ((ln, .reserveData n) :: rest) cur ctx = pass1Items .data limit rest (cur + n.toNat) ctx := by
+  conv => lhs; unfold pass1Items
+  simp [hlim, hn]
+
 /-- a label is given the address at which the next item of its segment is emitted (pass 1 step) -/
 theorem label_is_next_position (t : SegT) (limit : Nat) (ln : Nat) (name : Str) (rest : List (Nat × Item))
     (cur : Nat) (ctx : Ctx) (hlim : ¬ cur > limit) (hnew : ctx.exist name = false) :
